@@ -22,10 +22,8 @@ Definition run_cond_to_json (t : dslc arg1) : res pyval :=
 
 (* ContainerValue.from_spec(dict) / DataPath.from_part_specs / DataPath.from_spec -> description *)
 Definition run_part_from_spec (spec : pyval) : res pyval :=
-  match spec with
-  | VDict d => let* t := part_spec_parse T X d in let* (p, _) := mk_part T idlit t in describe_part p
-  | _ => Err AttributeError
-  end.
+  let* d := dict_of_val spec in
+  let* t := part_spec_parse T X d in let* (p, _) := mk_part T idlit t in describe_part p.
 Definition run_from_part_specs (specs : list pyval) : res pyval :=
   let* t := from_part_specs T X specs in describe_pathterm T t.
 Definition run_path_from_spec (spec : pyval) : res pyval :=
